@@ -61,7 +61,7 @@ impl CModel {
     pub fn new(prop: &'static str, tier: Tier) -> CModel {
         let mut spellings: Vec<&str> = vec!["a", "A", "a1", "A1", "a:b", "ασ", "ΑΣ", "ǅ", "ǆ"];
         if tier == Tier::Thorough {
-            spellings.extend(["b", "A:B", "", "é", "É"]);
+            spellings.extend(["b", "A:B", "", "é", "É", " a"]);
         }
         let spellings: Vec<String> = spellings.iter().map(|s| s.to_string()).collect();
         let mut lower: Vec<String> = spellings.iter().map(|s| R::lower_per_char(s)).collect();
